@@ -70,7 +70,7 @@ CHECKS = {
     "C07": (PR, "Lean 4 theorems over the monadic model of Processor._process_recursive: multi_engine_process_then_execute_yields_direct_rows (trees over several iteration engines: transfers, chains, unary operations, materializations), idempotence on processed trees, trivial transfers + correspondence + oracle on every generated multi-engine program",
             "Machine-checked (Props/C07.lean; the model of Processor.process with the two hooks instantiated the way the "
             "harness's real Processor instantiates them): for every tree of leaves, unary operations, chains, transfers "
-            "BETWEEN iteration engines and materializations of single-engine subtrees, nested to any depth, whenever "
+            "BETWEEN iteration engines and materializations of single-engine subtrees (statically trivial transfers and materializations included), nested to any depth, whenever "
             "process succeeds the returned tree has the engine and columns of the input and executing it in its final engine "
             "yields exactly the rows - values, multiplicity, order - of the direct evaluation of the input "
             "(multi_engine_process_then_execute_yields_direct_rows); behind it an induction through the monadic model "
@@ -84,7 +84,7 @@ CHECKS = {
             "state change (processed_relation_is_left_alone, reprocessing_calls_no_hook, "
             "fully_processed_tree_is_returned_unchanged); a statically trivial Transfer gets the engine's trivial payload on "
             "a new node, the hook log unchanged (trivial_transfer_calls_no_hook). Proof (partial): trees that involve a SQL "
-            "engine (hooks that compile and run SQL, Select markers, joins), statically trivial materializations, and "
+            "engine (hooks that compile and run SQL, Select markers, joins) and "
             "transfers below materializations are validated by the correspondence and the oracle on every generated "
             "program, not proved; the multi-engine theorem is a partial-correctness statement (it assumes process "
             "returned). " + CORR, "", "DESIGN.md 5/C07"),
@@ -140,13 +140,21 @@ CHECKS = {
             "Machine-checked for all predicate/expression trees and rows: as_trivial sound (spec and callable), "
             "flatten_logical_and sound, Selection normalisation equivalent, required columns sufficient. " + CORR,
             "", "DESIGN.md 5/C13"),
-    "C14": (TV, "Lean model + correspondence + structural walk of every tree the real library returns; supporting theorems",
-            CORR + "Supporting machine-checked theorems (Props/C14.lean): _finish_apply preserves well-formedness and engine "
-            "consistency; every tree built by an iteration-engine history is WF and engine-consistent; automatic join "
-            "resolution yields key columns of both operands; transferred_to never creates a self-transfer; documented no-op "
-            "calls return the relation itself; inside the SQL engine a unary operation applied to any raw SQL tree, and conform "
-            "of one, return a well-formed relation in the same engine. The join factory path in the SQL engine and "
-            "back-tracking across engines are validated, not proved.", "", "DESIGN.md 5/C14"),
+    "C14": (PR, "Lean 4 theorems: well-formedness and engine consistency of the trees built by iteration-engine histories, SQL-engine histories, apply with every preferred-engine option combination, and Processor.process on multi-engine iteration trees + correspondence + structural walk of every tree the real library returns",
+            "Machine-checked (Props/C14.lean): _finish_apply preserves well-formedness and engine consistency; every tree built "
+            "by an iteration-engine history is WF and engine-consistent (every operation node in its operand's engine, no "
+            "placeholder node, every expression supported); every tree built by a history inside ONE SQL engine - unary "
+            "operations, chains, joins with automatic common columns, materializations - is WF and lives in that engine "
+            "(sql_history_trees_wellformed); automatic join resolution yields key columns of both operands; transferred_to never "
+            "creates a self-transfer; documented no-op calls return the relation itself; a unary operation applied with ANY "
+            "preferred_engine / backtrack / transfer / require combination to an iteration-engine tree returns a well-formed "
+            "relation in the target's engine or (transfer only) the preferred one (apply_with_options_wellformed); inside the "
+            "SQL engine a unary operation applied to any raw SQL tree, and conform of one, return a well-formed relation in the "
+            "same engine; the tree Processor.process returns for a tree over several iteration engines is WF, executable "
+            "(chain operands share an engine, transfers lead from an iteration engine) and has the input's engine "
+            "(processed_trees_wellformed). Proof (partial): per-node expression support INSIDE SQL-engine trees, back-tracking of "
+            "joins and trees processed through a SQL engine are validated by walking every tree the real library returns, not "
+            "proved. " + CORR, "", "DESIGN.md 5/C14"),
     "C15": (PR, "Lean 4 theorems: Transfer.simplify sound, iteration-engine transfers keep content, materialize of locked adds nothing, back-tracking stops at locked nodes, _finish_apply keeps locked nodes + regenerated is_locked table + correspondence",
             "Machine-checked: whatever Transfer.simplify hands back has the original content, the requested engine and is "
             "reached through transfers/unlocked markers only; transfers between iteration engines (incl. there-and-back) "
